@@ -695,6 +695,15 @@ def run_spv(M, ids, wr, spec, contests, audit, cvrs, mvrs, sample, all_asns, tab
             for k2, (con2, _, asn2) in enumerate(all_asns):
                 if con2["id"] == con["id"]:
                     asns_lit[k2]["override"] = fl(asn2.margin)
+    # margin == 2 u_a exactly makes `2 / (2 - margin / u_a)` a division by zero whose outcome depends on the number's
+    # python type (ZeroDivisionError for float, inf for np.float64): outside the model (and outside any margin that
+    # can come from votes, which is <= 2 u_a - 1); such cases are regenerated with a directly assigned margin
+    for k, (con, a, asn) in enumerate(all_asns):
+        m = fl(asn.margin)
+        if m == m and abs(m) != float("inf") and C.frac(m) == 2 * C.frac(asn.assorter.upper_bound):
+            asn.margin = 0.25
+            asns_lit[k]["override"] = 0.25
+            hit("margin == 2 u_a regenerated")
     # spy on the tests: what u does the test hold when it runs, and on which data
     log = []
     for con, a, asn in all_asns:
